@@ -1,19 +1,22 @@
-(* SECOND FORK UNDER DYNAMIC MEMBERSHIP, INDEPENDENT OF THE WINDOW: the distance bound (gap_runb) holds on both
-   nodes, both hold the same validator-set table, every event gets the same round and witness flag on both, and
-   still the fame of one witness is decided differently and the blocks differ.
-   Cause: DecideFame (hashgraph.go, `t >= jPeerSet.SuperMajority()`) decides, at a round-j witness y, with the
-   super-majority of the peer-set of round j, while the votes it counts are those of the round j-1 witnesses that y
-   strongly sees with the peer-set of round j-1.  When the set SHRINKS between j-1 and j (5 -> 4: super-majority
-   4 -> 3), three equal votes out of five decide, and two such "decisions" need not intersect in a majority.
+(* REGRESSION WITNESS for fix 05eda0b (known finding C01-fame-threshold-after-shrink).
+   Before the fix DecideFame decided, at a round-j witness y, with the super-majority of the peer-set of round j
+   (`t >= jPeerSet.SuperMajority()`), while the votes it counts are those of the round j-1 witnesses that y strongly
+   sees with the peer-set of round j-1.  When the set SHRINKS between j-1 and j (5 -> 4: super-majority 4 -> 3), three
+   equal votes out of five decided, and two such "decisions" need not intersect in a majority: a second fork under
+   dynamic membership, independent of the window (distance bound respected on both nodes, same table, same rounds).
+   The fix takes the quorum from the voters' set (round j-1): Model/HgImpl.v [vparams_of], [vp_sm].
    sh: five validators, 64 gossip events (plain gossip DAG, every coin bit true), the first event of creator 0
    carries "peer 4 leaves", accepted in block 0 (round-received 1): the four-peer set governs rounds >= 7.
    x = 35 is creator 4's round-5 witness, seen by the round-6 witnesses 45 (creator 4) and 46 (creator 3) and not by
-   42, 43, 44 (creators 2, 1, 0).  Round 7: witness 60 (creator 0) strongly sees all five: 3 no / 2 yes, 3 >= 3:
-   NOT famous.  Witnesses 52, 53, 55 (creators 2, 3, 1) strongly see 42, 43, 45, 46: 2 no / 2 yes, a tie counts as
-   yes; the round-8 witness 62 (no descendant of 60) counts 3 yes, 3 >= 3: FAMOUS.
+   42, 43, 44 (creators 2, 1, 0).  Round 7: witness 60 (creator 0) strongly sees all five: 3 no / 2 yes; with the OLD
+   quorum 3 >= 3: NOT famous (now: 3 < 4, no decision).  Witnesses 52, 53, 55 (creators 2, 3, 1) strongly see
+   42, 43, 45, 46: 2 no / 2 yes, a tie counts as yes; the round-8 witness 62 (no descendant of 60) counts 3 yes,
+   3 >= 3 (the four-peer set of round 7 on either rule): FAMOUS.
    Node A receives the events in creation order, node B receives event 60 last (both orders are topological).
-   Event 34 (round 4, creator 0) is an ancestor of the famous witnesses 36..39 and not of 35: round-received 5 on A,
-   6 on B; block 4 contains transaction 34 on A only.  Replayed on two real cores: corpus/C01-shrink-fork.json. *)
+   [vparams_old] / [fame_old] below are the pre-fix quorum, used ONLY here: on A's view after event 60 the old rule
+   decides "not famous", on B's view (everything but 60) "famous" (sh_regression); before the fix block 4 contained
+   transaction 34 on A only (corpus/C01-shrink-fork.json on two real cores, /repo before the fix).  With the fixed
+   rule the two nodes agree on this history (sh_facts). *)
 From Coq Require Import ZArith List Bool Permutation.
 From V Require Import Model.ZMap Model.Quorum Model.Voting Model.HgImpl Model.Window Proofs.AdmissionProofs Proofs.BlockInv
   Proofs.OrderProofs Proofs.Static Proofs.Agreement Proofs.BlockAgree Proofs.WindowWitness Proofs.WindowStable Proofs.GapWindow.
@@ -76,42 +79,43 @@ Definition fame_row (st : hg) (r : Z) : list (Z * trilean) :=
   | Some ri => map (fun e => (fst e, snd (snd e))) (filter (fun e => fst (snd e)) (ri_created ri))
   | None => [] end.
 
+(* with the fixed quorum the two nodes agree on this history *)
 Lemma sh_facts :
   forallb e_coin sh_all = true /\
-  (* both nodes respect the distance bound, hence the window *)
   gap_runb (init_hg 0 sh_g []) (map HInsert sh_all) = true /\ gap_runb (init_hg 1 sh_g []) (map HInsert sh_all') = true /\
   window_runb (init_hg 0 sh_g []) (map HInsert sh_all) = true /\ window_runb (init_hg 1 sh_g []) (map HInsert sh_all') = true /\
   let sa := SA in let sb := SB in
   failed sa = false /\ failed sb = false /\
-  (* same table, same rounds *)
   peersets sa = peersets sb /\ map (fun p => (fst p, length (snd p))) (peersets sa) = [(0, 5%nat); (7, 4%nat)] /\
   map (rnd sa) (zseq 0 64) = map (rnd sb) (zseq 0 64) /\
-  (* the fame of witness 35 *)
-  fame_row sa 5 = [(35, TFalse); (36, TTrue); (37, TTrue); (38, TTrue); (39, TTrue)] /\
+  fame_row sa 5 = [(35, TTrue); (36, TTrue); (37, TTrue); (38, TTrue); (39, TTrue)] /\
   fame_row sb 5 = [(35, TTrue); (36, TTrue); (37, TTrue); (38, TTrue); (39, TTrue)] /\
-  (* the blocks *)
-  map (fun b => (b_index b, b_rr b, b_txs b)) (firstn 4 (delivered sa)) = map (fun b => (b_index b, b_rr b, b_txs b)) (firstn 4 (delivered sb)) /\
-  option_map (fun b => (b_index b, b_rr b, b_txs b)) (nth_error (delivered sa) 4) = Some (4, 5, [28; 29; 30; 31; 32; 33; 34]) /\
-  option_map (fun b => (b_index b, b_rr b, b_txs b)) (nth_error (delivered sb) 4) = Some (4, 5, [28; 29; 30; 31; 32; 33]).
+  length (delivered sa) = 6%nat /\
+  map (fun b => (b_index b, b_rr b, b_txs b)) (delivered sa) = map (fun b => (b_index b, b_rr b, b_txs b)) (delivered sb) /\
+  option_map (fun b => (b_index b, b_rr b, b_txs b)) (nth_error (delivered sa) 4) = Some (4, 5, [28; 29; 30; 31; 32; 33]).
 Proof. vm_compute. repeat split; reflexivity. Qed.
 
-(* agreement on the transactions of the delivered blocks under the distance bound on both nodes: REFUTED *)
-Lemma sh_agreement_refuted :
-  ~ (forall genesis all self1 self2 oracle1 oracle2 ops1 ops2 k d1 d2,
-       ids_determine all -> sigkeys_determine all -> fork_free all ->
-       self1 <> -1 -> self2 <> -1 ->
-       Forall (hop_ok all) ops1 -> Forall (hop_ok all) ops2 ->
-       gap_runb (init_hg self1 genesis oracle1) ops1 = true -> gap_runb (init_hg self2 genesis oracle2) ops2 = true ->
-       let st1 := hrun (init_hg self1 genesis oracle1) ops1 in
-       let st2 := hrun (init_hg self2 genesis oracle2) ops2 in
-       nth_error (delivered st1) k = Some d1 -> nth_error (delivered st2) k = Some d2 -> b_txs d1 = b_txs d2).
-Proof.
-  intros S. destruct sh_premises as [ID [SK [FF [H1 [H2 _]]]]].
-  pose proof sh_facts as F. cbv zeta in F. destruct F as [_ [G1 [G2 [_ [_ [_ [_ [_ [_ [_ [_ [_ [_ [F1 F2]]]]]]]]]]]]]].
-  destruct (nth_error (delivered SA) 4) as [d1|] eqn:E1; [|discriminate F1].
-  destruct (nth_error (delivered SB) 4) as [d2|] eqn:E2; [|discriminate F2].
-  cbn [option_map] in F1, F2. inversion F1 as [[A1 A2 A3]]. inversion F2 as [[B1 B2 B3]].
-  assert (N0 : 0 <> -1) by discriminate. assert (N1 : 1 <> -1) by discriminate.
-  specialize (S sh_g sh_all 0 1 [] [] (map HInsert sh_all) (map HInsert sh_all') 4%nat d1 d2 ID SK FF N0 N1 H1 H2 G1 G2).
-  cbv zeta in S. specialize (S E1 E2). rewrite A3, B3 in S. discriminate S.
-Qed.
+(** * The quorum before the fix *)
+Definition vparams_old (st : hg) (x : Z) : vparams :=
+  mkVP (fun y => see st y x)
+       (fun j => match get_round st (j - 1) with Some ri => Some (witnesses ri) | None => None end)
+       (fun j y w => match get_peerset st (j - 1) with
+                     | Some pps => strongly_see st y w pps
+                     | None => None end)
+       (fun j => match get_peerset st j with Some ps => Some (super_majority ps) | None => None end)
+       (coin_of st).
+Definition fame_old (st : hg) (x r : Z) : option (option bool) :=
+  fame_loop (vparams_old st x) (round_witnesses st) r (zrange (r + 1) st.(last_round)) [].
+
+(* A60: node A after event 60 (creation order); B63: node B after everything but 60 *)
+Lemma sh_regression :
+  let a60 := hrun (init_hg 0 sh_g []) (map HInsert (firstn 61 sh_all)) in
+  let b63 := hrun (init_hg 1 sh_g []) (map HInsert (firstn 63 sh_all')) in
+  nth_error sh_all 60 = Some (sh_ev (60, 0, 11, 44, 59)) /\ nth_error sh_all' 63 = Some (sh_ev (60, 0, 11, 44, 59)) /\
+  failed a60 = false /\ failed b63 = false /\ last_round a60 = 7 /\ last_round b63 = 8 /\
+  (* the old rule: two different decisions on two views of one DAG *)
+  fame_old a60 35 5 = Some (Some false) /\ fame_old b63 35 5 = Some (Some true) /\
+  (* the fixed rule: no decision at 60; "famous" at 62 on both *)
+  fame_of a60 35 5 = Some None /\ fame_of b63 35 5 = Some (Some true) /\
+  fame_of (hrun (init_hg 0 sh_g []) (map HInsert sh_all)) 35 5 = Some (Some true).
+Proof. vm_compute. repeat split; reflexivity. Qed.
